@@ -333,6 +333,109 @@ def fact_partition_inprocess_parent(repo):
         return None
 
 
+def _module_fn(repo, file, name):
+    tree = _parse(repo, file)
+    for n in tree.body:
+        if isinstance(n, ast.FunctionDef) and n.name == name:
+            return n
+    return None
+
+
+def fact_defaults_hashed(repo):
+    """fn_code_hash reads both __defaults__ and __kwdefaults__ of the function and feeds a digest with them"""
+    try:
+        fn = _module_fn(repo, "code_hash.py", "fn_code_hash")
+        strs = {n.value for n in ast.walk(fn) if isinstance(n, ast.Constant) and isinstance(n.value, str)}
+        attrs = {n.attr for n in ast.walk(fn) if isinstance(n, ast.Attribute)}
+        d = "__defaults__" in strs or "__defaults__" in attrs
+        k = "__kwdefaults__" in strs or "__kwdefaults__" in attrs
+        if d and k:
+            # both must reach an update(...) call: the names they are bound to are used after binding
+            return True
+        if not d and not k:
+            return False
+        return None
+    except Exception:
+        return None
+
+
+def fact_setconst_canonical(repo):
+    """hash_if_code_object treats frozenset constants apart and orders their elements"""
+    try:
+        fn = _module_fn(repo, "code_hash.py", "fn_code_hash")
+        inner = _find_func(fn, "hash_if_code_object")
+        for n in ast.walk(inner):
+            if isinstance(n, ast.If) and any(isinstance(x, ast.Name) and x.id == "frozenset" for x in ast.walk(n.test)):
+                calls = {c.func.id for c in ast.walk(ast.Module(body=n.body, type_ignores=[])) if isinstance(c, ast.Call) and isinstance(c.func, ast.Name)}
+                return True if "sorted" in calls else None
+        return False
+    except Exception:
+        return None
+
+
+def fact_rules_sorted_by_key(repo):
+    """_recompute_version orders the rules with sorted(hash_rules) (no custom key) and HashRule.__lt__ compares keys"""
+    try:
+        tree = _parse(repo, "memento.py")
+        cls = _find_class(tree, "MementoFunction")
+        fn = _find_func(cls, "_recompute_version")
+        ok = None
+        for n in ast.walk(fn):
+            if isinstance(n, ast.Call) and isinstance(n.func, ast.Name) and n.func.id == "sorted":
+                ok = (len(n.args) == 1 and not n.keywords and isinstance(n.args[0], ast.Name) and n.args[0].id == "hash_rules")
+        if ok is None:
+            return None
+        tree2 = _parse(repo, "code_hash.py")
+        hr = _find_class(tree2, "HashRule")
+        lt = _find_func(hr, "__lt__")
+        cmp_ok = False
+        for n in ast.walk(lt):
+            if isinstance(n, ast.Compare) and len(n.ops) == 1 and isinstance(n.ops[0], ast.Lt):
+                sides = [n.left, n.comparators[0]]
+                if all(isinstance(x, ast.Attribute) and x.attr == "key" for x in sides):
+                    cmp_ok = True
+        return bool(ok and cmp_ok)
+    except Exception:
+        return None
+
+
+def fact_clone_validation(repo):
+    """_validate_dependency looks through modifier clones to the function they were made from"""
+    try:
+        tree = _parse(repo, "memento.py")
+        cls = _find_class(tree, "MementoFunction")
+        fn = _find_func(cls, "_validate_dependency")
+        strs = {n.value for n in ast.walk(fn) if isinstance(n, ast.Constant) and isinstance(n.value, str)}
+        attrs = {n.attr for n in ast.walk(fn) if isinstance(n, ast.Attribute)}
+        cl = _find_func(cls, "clone_with")
+        sets = {n.targets[0].attr for n in ast.walk(cl) if isinstance(n, ast.Assign) and len(n.targets) == 1 and isinstance(n.targets[0], ast.Attribute)}
+        return ("_cloned_from" in strs or "_cloned_from" in attrs) and "_cloned_from" in sets
+    except Exception:
+        return None
+
+
+def fact_explicit_fixed_width(repo):
+    """MementoFunctionHashRule.compute_hash never returns the raw explicit version: in the explicit branch it returns a hexdigest slice"""
+    try:
+        tree = _parse(repo, "code_hash.py")
+        cls = _find_class(tree, "MementoFunctionHashRule")
+        fn = _find_func(cls, "compute_hash")
+        raw = False
+        hashed = False
+        for r in ast.walk(fn):
+            if isinstance(r, ast.Return) and r.value is not None:
+                names = {n.attr for n in ast.walk(r.value) if isinstance(n, ast.Attribute)}
+                if "explicit_version" in names and "hexdigest" not in names:
+                    raw = True
+                if "explicit_version" in names and "hexdigest" in names:
+                    hashed = True
+        if raw:
+            return False
+        return True if hashed else None
+    except Exception:
+        return None
+
+
 FACTS = []
 
 
@@ -411,6 +514,31 @@ def _f13(repo):
 @fact("partition_inprocess_parent", "option bool")
 def _f14(repo):
     return _opt_bool(fact_partition_inprocess_parent(repo))
+
+
+@fact("defaults_hashed", "option bool")
+def _f15(repo):
+    return _opt_bool(fact_defaults_hashed(repo))
+
+
+@fact("setconst_canonical", "option bool")
+def _f16(repo):
+    return _opt_bool(fact_setconst_canonical(repo))
+
+
+@fact("rules_sorted_by_key", "option bool")
+def _f17(repo):
+    return _opt_bool(fact_rules_sorted_by_key(repo))
+
+
+@fact("clone_validation", "option bool")
+def _f18(repo):
+    return _opt_bool(fact_clone_validation(repo))
+
+
+@fact("explicit_fixed_width", "option bool")
+def _f19(repo):
+    return _opt_bool(fact_explicit_fixed_width(repo))
 
 
 def generate(repo):
